@@ -1,0 +1,5 @@
+//go:build !verif
+
+package sampling
+
+func verifKey() []byte { return nil }
